@@ -3,7 +3,7 @@
 (* short symbol strings after structural prefixes, and prints each as one JSON input line for the harness.    *)
 EXTENDS ArxmlDoc, Json
 
-CONSTANTS Mode,      \* "docs" | "defects" | "strings"
+CONSTANTS Mode,      \* "docs" | "defects" | "strings" | "markup" | "deep"
           MaxLen     \* length bound for Mode = "strings"
 VARIABLES x
 
@@ -22,6 +22,13 @@ RECURSIVE Cat(_)
 Cat(sq) == IF sq = <<>> THEN "" ELSE Head(sq) \o Cat(Tail(sq))
 Strings == UNION {[1..n -> Alphabet] : n \in 0..MaxLen} \cup UNION {[1..n -> RawBytes \cup {"<", ">"}] : n \in 1..2}
 
+\* one markup token "<" body ">" with every short body over the characters the tokenizer dispatches on (comments, processing
+\* instructions, end tags, empty-element tags, attributes), after a structural prefix and followed by a tail
+MarkupAlphabet == {"!", "-", "?", "/", "x", " ", "=", "\""}
+MarkupPrefixes == <<"", Hdr, Hdr \o Root, Hdr \o Root \o "<AR-PACKAGES><AR-PACKAGE>">>
+MarkupTails == <<"", "x-->">>
+Bodies == UNION {[1..n -> MarkupAlphabet] : n \in 0..(MaxLen + 1)}
+
 \* pathological nesting depth: d levels of AR-PACKAGES / AR-PACKAGE
 RECURSIVE Rep(_, _)
 Rep(s, n) == IF n = 0 THEN "" ELSE IF n = 1 THEN s ELSE LET h == Rep(s, n \div 2) IN h \o h \o (IF n % 2 = 1 THEN s ELSE "")
@@ -35,12 +42,17 @@ Inputs ==
          {[kind |-> "doc", cls |-> "faithful", d |-> di, st |-> st, df |-> NoDefect, s |-> <<>>, p |-> 0] : di \in 1..Len(Docs), st \in Styles}
     [] Mode = "defects" ->
          {[kind |-> "defect", cls |-> t[2], d |-> t[1], st |-> st, df |-> t[3], s |-> <<>>, p |-> 0] : t \in AllDefects, st \in DefectStyles}
+    [] Mode = "markup" ->
+         {[kind |-> "raw", cls |-> "markup", d |-> tl, st |-> CHOOSE st \in DefectStyles : TRUE, df |-> NoDefect, s |-> s, p |-> p] :
+             s \in Bodies, p \in 1..Len(MarkupPrefixes), tl \in 1..Len(MarkupTails)}
     [] OTHER ->
          {[kind |-> "raw", cls |-> "symbols", d |-> 0, st |-> CHOOSE st \in DefectStyles : TRUE, df |-> NoDefect, s |-> s, p |-> p] :
              s \in Strings, p \in 1..Len(Prefixes)}
 
 Line(i) ==
   IF i.kind = "deep" THEN [id |-> <<"depth", i.d>>, kind |-> "deep", cls |-> i.cls, text |-> Deep(i.d), exp |-> "", pre |-> FALSE]
+  ELSE IF i.kind = "raw" /\ i.cls = "markup" THEN
+       [id |-> <<i.p, i.d, i.s>>, kind |-> "raw", cls |-> i.cls, text |-> MarkupPrefixes[i.p] \o "<" \o Cat(i.s) \o ">" \o MarkupTails[i.d], exp |-> "", pre |-> FALSE]
   ELSE IF i.kind = "raw" THEN [id |-> <<i.p, i.s>>, kind |-> "raw", cls |-> i.cls, text |-> Prefixes[i.p] \o Cat(i.s), exp |-> "", pre |-> FALSE]
   ELSE [id |-> <<i.d, i.cls, i.st, i.df.k, i.df.at>>, kind |-> i.kind, cls |-> i.cls, text |-> Render(Docs[i.d], i.st, i.df),
         exp |-> IF i.kind = "doc" THEN Expected(Docs[i.d]) ELSE [n |-> ""],
